@@ -670,7 +670,7 @@ class Plucker(SMUserList):
         l1 = self
         if l1 | l2:
             # lines are parallel
-            l = np.cross(l1.w, l1.v - l2.v * np.dot(l1.w, l2.w) / dot(l2.w, l2.w)) / np.linalg.norm(l1.w)
+            l = np.linalg.norm(np.cross(l1.w, l1.v - l2.v * np.dot(l1.w, l2.w) / np.dot(l2.w, l2.w))) / np.dot(l1.w, l1.w)
         else:
             # lines are not parallel
             if abs(l1 * l2) < 10*_eps:
@@ -678,7 +678,7 @@ class Plucker(SMUserList):
                 l = 0
             else:
                 # lines don't intersect, find closest distance
-                l = abs(l1 * l2) / np.linalg.norm(np.cross(l1.w, l2.w))**2
+                l = abs(l1 * l2) / np.linalg.norm(np.cross(l1.uw, l2.uw))
         return l
 
     
